@@ -18,7 +18,7 @@ pub fn run(tier: &str) -> Result<Report, String> {
         return Err("core family lost its constrained networks".into());
     }
     let (m_plain, m_ext, fams) = if tier == "quick" { (4, 3, 3) } else { (5, 4, 6) };
-    let mut slices = vec![];
+    let mut slices: Vec<serde_json::Value> = vec![];
     for b in &constrained {
         sem::note_network(&mut rep, b);
         let ctx = NetCtx::new(b.clone(), Labels::default(), "none");
@@ -42,6 +42,22 @@ pub fn run(tier: &str) -> Result<Report, String> {
             slices.push(json!({"network": b.name, "extended_max_nodes": m_ext, "formulae": fs.len(), "label_families": fams}));
         }
     }
+    // graphs whose unit set is additionally restricted to every second valid colour
+    // (SymbolicAsyncGraph::restrict): results must stay inside the restricted universe as well
+    let mut n_restricted = 0;
+    for b in nets.iter().filter(|b| b.cols.len() >= 2) {
+        let keep: Vec<usize> = (0..b.cols.len()).step_by(2).collect();
+        let rb = std::sync::Arc::new(b.restrict_colours(&keep));
+        sem::note_network(&mut rep, &rb);
+        let ctx = NetCtx::new(rb.clone(), Labels::default(), "none");
+        let mut alpha = Alphabet::plain(ctx.nprops(), 3);
+        alpha.bi = crate::formulas::ALL_BI.to_vec();
+        let mut g = Gen::new(alpha);
+        let fs = g.closed_up_to(if tier == "quick" { 3 } else { 4 });
+        sem::sweep(&mut rep, &ctx, &fs, Checks { semantic: true, unit: true, entries: Entries::Plain4 });
+        n_restricted += 1;
+    }
+    slices.push(json!({"part": "core networks with the unit set restricted to every second colour", "networks": n_restricted}));
     // every constrained network of the all-2-variable grammar
     let (all2, info) = all2_nets(3, if tier == "quick" { Some(2) } else { None })?;
     rep.set("all_2_variable_networks", info);
